@@ -153,7 +153,7 @@ Proof.
 Qed.
 
 (* STOR / APPE: the handler has checked is_dir(parent).  Agreement for 'wb', for 'ab' when the
-   script only writes, for 'r+b' when the file exists (r+b on a missing file is finding F6). *)
+   script only writes, for 'r+b' when the file exists (r+b on a missing file is finding F06). *)
 Lemma open_write_agree t pp x es m s :
   lookup pp t = Some (Dir es) ->
   Forall seek_write s ->
@@ -243,7 +243,7 @@ Proof.
   destruct (lookup b t); congruence.
 Qed.
 
-(* the two shapes of RNTO on which the backends differ although the guards pass (F7) *)
+(* the two shapes of RNTO on which the backends differ although the guards pass (F07) *)
 Definition rename_bad (t : node) (a b : path) : bool :=
   match lookup a t, unsnoc b with
   | Some _, Some (bp, _) =>
@@ -256,7 +256,7 @@ Definition rename_bad (t : node) (a b : path) : bool :=
   end.
 
 (* RNTO: the handler has checked that the destination does not exist; source <> destination
-   (equal paths with a vanished source is finding F15) *)
+   (equal paths with a vanished source is finding F17) *)
 Lemma rename_agree t a b :
   wf t -> a <> [] -> lookup b t = None -> path_eqb a b = false -> rename_bad t a b = false ->
   step_agree (m_rename t a b) (p_rename t a b).
@@ -483,7 +483,7 @@ Definition targets_root (c : cmd) : bool :=
   | _ => false
   end.
 
-(* F6: REST n (n > 0) + STOR/APPE to a missing file in an existing directory *)
+(* F06: REST n (n > 0) + STOR/APPE to a missing file in an existing directory *)
 Definition rest_missing (t : node) (p : path) (restart : Z) : bool :=
   (0 <? restart) &&
   match unsnoc p with
@@ -491,7 +491,7 @@ Definition rest_missing (t : node) (p : path) (restart : Z) : bool :=
   | None => false
   end.
 
-(* F15 (same path, source gone) and F7 (below a file / into the own subtree), when the
+(* F17 (same path, source gone) and F07 (below a file / into the own subtree), when the
    destination guard passes *)
 Definition rnto_bad (t : node) (a b : path) : bool :=
   negb (m_exists t b) && (path_eqb a b || rename_bad t a b).
@@ -915,7 +915,7 @@ Qed.
 Definition codes_of (l : list (reply * node)) : list (list Z) := map (fun x => fst (fst x)) l.
 Definition last_tree (t : node) (l : list (reply * node)) : node := last (map snd l) t.
 
-(* F6: REST 2; STOR /m  (m missing): memory 150/226 and the file appears, disk 150/451 unchanged *)
+(* F06: REST 2; STOR /m  (m missing): memory 150/226 and the file appears, disk 150/451 unchanged *)
 Theorem rest_stor_missing_refuted :
   exists t p n blocks,
     wf t /\ shape_ok (None, t) (CStor p n blocks) = false /\
@@ -927,7 +927,7 @@ Proof.
   exists wt0, [nm], 2, [[80; 81]]. split; [exact wt0_wf|]. repeat split; vm_compute; reflexivity.
 Qed.
 
-(* F7a: RNFR /d; RNTO /d/e/h: memory 250 and /d is gone, disk 451 unchanged *)
+(* F07a: RNFR /d; RNTO /d/e/h: memory 250 and /d is gone, disk 451 unchanged *)
 Theorem rename_into_self_refuted :
   exists t a b,
     wf t /\ shapes_ok (None, t) [CRnfr a; CRnto b] = false /\
@@ -940,7 +940,7 @@ Proof.
   exists wt0, [nd], [nd; ne; nh]. split; [exact wt0_wf|]. repeat split; vm_compute; reflexivity.
 Qed.
 
-(* F7b: RNFR /d; RNTO /g/x (g is a file): both answer 451, but memory has already removed /d *)
+(* F07b: RNFR /d; RNTO /g/x (g is a file): both answer 451, but memory has already removed /d *)
 Theorem rename_under_file_refuted :
   exists t a b,
     wf t /\ shapes_ok (None, t) [CRnfr a; CRnto b] = false /\
@@ -954,7 +954,7 @@ Proof.
   intro H. cbn [srv_run] in H. vm_compute in H. destruct H as [_ [H _]]. specialize (H eq_refl). discriminate.
 Qed.
 
-(* F15: RNFR /g; DELE /g; RNTO /g: memory 250 (source == destination is not checked), disk 451 *)
+(* F17: RNFR /g; DELE /g; RNTO /g: memory 250 (source == destination is not checked), disk 451 *)
 Theorem rnto_same_path_refuted :
   exists t a,
     wf t /\ shapes_ok (None, t) [CRnfr a; CDele a; CRnto a] = false /\
